@@ -22,6 +22,10 @@ func NewPlanarYUVLuminanceSource(yuvData []byte,
 	if left < 0 || top < 0 || width < 0 || height < 0 {
 		return nil, errors.New("IllegalArgumentException: Crop rectangle must not have a negative origin or size")
 	}
+	if width > dataWidth || height > dataHeight || left > dataWidth-width || top > dataHeight-height {
+		// also keeps the sums below from wrapping around for arguments near the largest int
+		return nil, errors.New("IllegalArgumentException: Crop rectangle does not fit within image data")
+	}
 	if left+width > dataWidth || top+height > dataHeight {
 		return nil, errors.New("IllegalArgumentException: Crop rectangle does not fit within image data")
 	}
